@@ -14,6 +14,14 @@
 //! every event terminator, short Content-Length body, early clean end, HTTP errors, headers only,
 //! empty body, no `[DONE]`, not an event stream). A deterministic grid (framing × fault × cut
 //! class, one run per cell) runs first on every run; the same oracle judges every log.
+//!
+//! CACHE STATE AT RESTART: the files under `<data>/continuity_streams/` are rebuildable caches, so the
+//! numbering of the truth log must not depend on them. In about two thirds of the histories that
+//! restart, the caches of 1..all continuities are damaged while the engine is closed (sidecar loses its
+//! last 1–3 whole lines / is cut at an earlier line boundary / emptied / deleted / rolled back to a copy
+//! taken mid-history; the same for the seek / message / compaction cache files; the whole directory
+//! deleted; `.dirty` markers removed), mostly after the newest frame of the log was given to ANOTHER
+//! continuity. The workload then goes on appending to every continuity; only the log is judged.
 
 #[path = "c01_provider.rs"]
 mod hostile;
@@ -35,7 +43,9 @@ pub fn run(cfg: &Cfg) -> i32 {
         "C01",
         "exploration",
         "seeded concurrent histories (2–16 actor threads over 1–4 continuities + sessions + tasks via the router, \
-         noise delays at log.append.* / cont.cache.* / *.emit.* hook points, 0–1 restarts); in about half of the \
+         noise delays at log.append.* / cont.cache.* / *.emit.* hook points, 0–1 restarts; in about two thirds of the \
+         restarts the rebuildable cache files of 1..all continuities are stale / emptied / missing / rolled back when the \
+         engine reopens, the newest log frame mostly belonging to another continuity); in about half of the \
          histories the prompt runs talk to a scripted provider whose every reply carries a seeded framing (LF/CRLF/mixed) \
          and a seeded fault (reset at k / short content-length / early end / HTTP error / headers only / empty / no [DONE]), \
          k mostly from the hostile cut set around event terminators; plus a deterministic grid framing × fault × cut class \
@@ -100,6 +110,12 @@ fn one_history(cfg: &Cfg, r: &mut Report, s: &Arc<Sched>, rt: &tokio::runtime::R
         None
     };
     let pcfg = provider.as_ref().map(|p| hostile::provider_cfg(&p.endpoint()));
+    // cache-state-at-restart dimension: a stream of its own as well
+    let mut crng = cfg.case_rng(idx.wrapping_add(2 << 40));
+    let damage_caches = restart && crng.chance(2, 3);
+    let mut cache_copy: HashMap<String, Vec<u8>> = HashMap::new();
+    let mut cache_damage: Vec<Value> = Vec::new();
+    let mut damaged_conts: Vec<String> = Vec::new();
 
     s.reset();
     s.record(true, &["log.append.locked", "cont.cache.enter", "cont.cache.exit"]);
@@ -240,6 +256,10 @@ fn one_history(cfg: &Cfg, r: &mut Report, s: &Arc<Sched>, rt: &tokio::runtime::R
             }
             (posted, task_ids)
         });
+        // an earlier version of the cache files, taken while the actors are (usually) still appending
+        if damage_caches && phases < total_phases {
+            cache_copy = copy_cache_files(&store.streams_dir());
+        }
         for h in handles {
             if let Ok(k) = h.join() {
                 for (kk, n) in k {
@@ -304,16 +324,51 @@ fn one_history(cfg: &Cfg, r: &mut Report, s: &Arc<Sched>, rt: &tokio::runtime::R
                 r.count("huge_last_frames_before_restart", 1);
             }
         }
+        // every continuity whose caches were damaged before this engine opened gets at least one append from it
+        // (the roaming actors usually did that already)
+        if !damaged_conts.is_empty() {
+            let mut k = Known::default();
+            for c in &damaged_conts {
+                let res = exec(&app, &store.data, &[c.clone()], &mut k, OpKind::Msg, &mut crng, &format!("h{idx}after"));
+                r.count(if res.ok { "cache_restart/appends_to_damaged_continuity_acknowledged" } else { "cache_restart/appends_to_damaged_continuity_refused" }, 1);
+                shared.acked.lock().unwrap().extend(res.acked);
+            }
+        }
+        // cache state at restart: whose caches will be damaged, and who holds the newest continuity frame of the log
+        let mut victims: Vec<String> = Vec::new();
+        if damage_caches && phases < total_phases {
+            let mut conts = shared.conts.lock().unwrap().clone();
+            crng.shuffle(&mut conts);
+            let n_victims = match crng.below(3) {
+                0 => 1,
+                1 => conts.len(),
+                _ => 1 + crng.usize(conts.len()),
+            };
+            victims = conts[..n_victims].to_vec();
+            if crng.chance(4, 5) {
+                // a continuity that keeps its caches if there is one, else one of the victims (the others then lag unseen)
+                let holder = if n_victims < conts.len() { conts[n_victims + crng.usize(conts.len() - n_victims)].clone() } else { conts[crng.usize(conts.len())].clone() };
+                let mut k = Known::default();
+                let res = exec(&app, &store.data, &[holder], &mut k, OpKind::Msg, &mut crng, &format!("h{idx}last"));
+                shared.acked.lock().unwrap().extend(res.acked);
+            }
+        }
         drop(app);
         // judge at every restart boundary
         let served = provider.as_ref().map(|p| p.request_count()).unwrap_or(0);
         let ctx = json!({
             "with_provider": with_provider,
             "provider_replies_served_in_request_order": (0..served).map(|i| plan[i % plan.len()].witness()).collect::<Vec<_>>(),
+            "cache_files_damaged_before_this_engine_opened": cache_damage,
         });
         if judge(r, &store, &shared, idx, phases, threads, noise_us, &ctx) {
             failed = true;
             break;
+        }
+        // engine closed, nothing running: damage the rebuildable caches
+        if !victims.is_empty() {
+            cache_damage = damage_cache_files(r, &store, &victims, &cache_copy, &mut crng);
+            damaged_conts = victims;
         }
     }
     let events = s.take_events();
@@ -366,6 +421,141 @@ fn one_history(cfg: &Cfg, r: &mut Report, s: &Arc<Sched>, rt: &tokio::runtime::R
             "ops": ops, "hook_events": events.len(), "acked_ids": acked,
         }));
     }
+}
+
+/// The cache files below `continuity_streams/` as they are right now (appends may be in progress: line files are
+/// kept up to their last whole line — they are append-only, so that is an earlier version of the file; the binary
+/// index files are not copied).
+fn copy_cache_files(dir: &std::path::Path) -> HashMap<String, Vec<u8>> {
+    let mut out = HashMap::new();
+    let Ok(rd) = std::fs::read_dir(dir) else {
+        return out;
+    };
+    for e in rd.flatten() {
+        let name = e.file_name().to_string_lossy().to_string();
+        if !name.ends_with(".jsonl") {
+            continue;
+        }
+        if let Ok(mut b) = std::fs::read(e.path()) {
+            let keep = b.iter().rposition(|c| *c == b'\n').map(|p| p + 1).unwrap_or(0);
+            b.truncate(keep);
+            out.insert(name, b);
+        }
+    }
+    out
+}
+
+/// whole lines of a line file: the offsets just after every `\n`
+fn line_ends(b: &[u8]) -> Vec<usize> {
+    b.iter().enumerate().filter(|(_, c)| **c == b'\n').map(|(i, _)| i + 1).collect()
+}
+
+/// One fault on one cache file; returns what was done (None: nothing to do, e.g. file absent / nothing older known).
+fn damage_one_file(path: &std::path::Path, name: &str, older: Option<&Vec<u8>>, rng: &mut Rng) -> Option<(&'static str, String)> {
+    let cur = std::fs::read(path).ok()?;
+    let is_lines = name.ends_with(".jsonl");
+    let pick = if is_lines { rng.below(10) } else { 7 + rng.below(3) };
+    match pick {
+        // the newest 1–3 whole lines never reached the disk
+        0..=3 => {
+            let ends = line_ends(&cur);
+            let drop_n = 1 + rng.usize(3);
+            if ends.len() <= drop_n {
+                return None;
+            }
+            let keep = ends[ends.len() - 1 - drop_n];
+            std::fs::write(path, &cur[..keep]).ok()?;
+            Some(("drop_last_lines", format!("last {drop_n} of {} lines dropped", ends.len())))
+        }
+        // an older version: any earlier line boundary
+        4 => {
+            let ends = line_ends(&cur);
+            if ends.len() < 2 {
+                return None;
+            }
+            let k = rng.usize(ends.len() - 1);
+            std::fs::write(path, &cur[..ends[k]]).ok()?;
+            Some(("cut_at_earlier_line", format!("first {} of {} lines kept", k + 1, ends.len())))
+        }
+        // rolled back to the copy taken mid-history
+        5 | 6 => {
+            let old = older?;
+            if old.len() >= cur.len() || old.is_empty() {
+                return None;
+            }
+            std::fs::write(path, old).ok()?;
+            Some(("rollback_to_mid_history_copy", format!("{} of {} bytes kept", old.len(), cur.len())))
+        }
+        7 => {
+            if cur.is_empty() {
+                return None;
+            }
+            std::fs::write(path, b"").ok()?;
+            Some(("truncate_to_zero", format!("{} bytes", cur.len())))
+        }
+        _ => {
+            std::fs::remove_file(path).ok()?;
+            Some(("delete", format!("{} bytes", cur.len())))
+        }
+    }
+}
+
+/// CACHE STATE AT RESTART: called with the engine closed. Damages the cache files of `victims` and returns the
+/// description that goes into the witness.
+fn damage_cache_files(r: &mut Report, store: &Store, victims: &[String], copy: &HashMap<String, Vec<u8>>, rng: &mut Rng) -> Vec<Value> {
+    use crate::c04::{FILES, FILE_CLASS};
+    let dir = store.streams_dir();
+    let mut done: Vec<Value> = Vec::new();
+    r.count("cache_restart/restarts_with_damaged_caches", 1);
+    // who holds the newest continuity frame of the log (what start-up reconciliation looks at)?
+    let newest = truth::parse_log(&store.log_bytes_settled())
+        .ok()
+        .and_then(|f| f.iter().rev().find(|f| f.stream_kind() == "continuity").map(|f| f.stream_id().to_string()));
+    // leftover markers of interrupted cache updates are cache state too
+    let mut markers = 0u64;
+    if let Ok(rd) = std::fs::read_dir(&dir) {
+        for e in rd.flatten() {
+            if e.file_name().to_string_lossy().ends_with(".dirty") && std::fs::remove_file(e.path()).is_ok() {
+                markers += 1;
+            }
+        }
+    }
+    r.count("cache_restart/dirty_markers_removed", markers);
+    if rng.chance(1, 10) {
+        let ok = std::fs::remove_dir_all(&dir).is_ok();
+        r.count("cache_restart/whole_cache_directory_deleted", ok as u64);
+        done.push(json!({"whole_directory_deleted": ok}));
+        return done;
+    }
+    let mut lagging_unseen = 0u64;
+    for v in victims {
+        // the main sidecar always, and sometimes a few of the other cache files of the continuity
+        let mut files: Vec<usize> = vec![0];
+        if rng.chance(1, 2) {
+            for _ in 0..1 + rng.usize(3) {
+                let f = 1 + rng.usize(FILES.len() - 1);
+                if !files.contains(&f) {
+                    files.push(f);
+                }
+            }
+        }
+        for f in files {
+            let name = format!("{v}{}", FILES[f]);
+            match damage_one_file(&dir.join(&name), &name, copy.get(&name), rng) {
+                Some((what, detail)) => {
+                    r.count(&format!("cache_restart/fault/{}/{what}", FILE_CLASS[f]), 1);
+                    if f == 0 && newest.as_deref() != Some(v.as_str()) {
+                        lagging_unseen += 1;
+                    }
+                    done.push(json!({"continuity": v, "file": FILE_CLASS[f], "fault": what, "detail": detail, "holds_newest_log_frame": newest.as_deref() == Some(v.as_str())}));
+                }
+                None => r.count("cache_restart/fault_not_applicable", 1),
+            }
+        }
+    }
+    r.count("cache_restart/continuities_damaged", victims.len() as u64);
+    r.count("cache_restart/sidecars_damaged_of_continuity_not_holding_newest_frame", lagging_unseen);
+    done
 }
 
 const GRID_BASE: u64 = 1 << 32;
